@@ -68,11 +68,11 @@ F_GET_RESULT = 'd:merged-get_result-raises-KeyError:two-aggregating-stages'
 
 def gen_spec(rng, delays):
   n = rng.choice([0, 1, 2, 3, 5, 9, 17, 26, 40])
-  big = (not delays) and rng.random() < 0.12
+  big = (not delays) and rng.random() < 0.07
   if big:
     # Shards longer than the 64-row random-access read-ahead window (and not a
     # multiple of it) exercise the windowed reads of sharded sources.
-    n = rng.choice([150, 200, 333, 470])
+    n = rng.choice([150, 200, 333])
   ops = []
   for _ in range(rng.randint(1, 4)):
     k = rng.choice(['affine', 'affine', 'square', 'square', 'filter', 'slow'])
